@@ -154,7 +154,7 @@ pub fn suite_c13(ctx: &mut Ctx) {
             }
             // differential screening (selection only; see screen.rs)
             if n >= 5 {
-                let k = ctx.q(if n >= 24 { 40_000 } else { 8_000 }, if n >= 24 { 2_000_000 } else { 300_000 });
+                let k = ctx.q(if n >= 24 { 1 << 21 } else { 1 << 18 }, if n >= 24 { 1 << 26 } else { 1 << 22 });
                 crate::screen::screen_generic(ctx, t, n, &["add", "sub", "mul", "div", "mul_add", "mul_sub", "sub_product", "sqrt"], k);
             }
             // unary: sqrt (PxE2 only), round, neg
